@@ -98,7 +98,14 @@ enum What {
     Ephemeral,
 }
 
+/// "churn" mode: every task builds its own ruleset (alternately with the behaviour of A and of B), so rulesets are created and
+/// dropped on all threads at the same time while others are being evaluated
+static CHURN: std::sync::atomic::AtomicBool = std::sync::atomic::AtomicBool::new(false);
+
 fn what(i: u64) -> What {
+    if CHURN.load(Ordering::Relaxed) {
+        return What::Ephemeral;
+    }
     match i % 8 {
         0 | 1 | 2 | 3 => What::SharedA,
         4 | 5 => What::SharedB,
@@ -135,7 +142,13 @@ fn ephemeral(i: u64) -> rvmon::fixture::Fixture {
     symbols.insert("limit".to_string(), Value::Int((i % 5) as i128));
     let mut rs = rules();
     rs.push(("own".into(), Expr::add(Expr::symbol("limit"), Expr::value(i as i128))));
-    build(&if i % 16 == 7 { descs_b() } else { descs_a() }, &symbols, &rs[(i % 4) as usize..], FaultPlan::default())
+    let b = if CHURN.load(Ordering::Relaxed) { i % 2 == 1 } else { i % 16 == 7 };
+    let mut d = if b { descs_b() } else { descs_a() };
+    if CHURN.load(Ordering::Relaxed) {
+        // s1 does not suspend here: the end of one evaluation and the start of the next happen on the same thread with nothing in between
+        d[0].suspend = 0;
+    }
+    build(&d, &symbols, &rs[(i % 4) as usize..], FaultPlan::default())
 }
 
 fn main() {
@@ -148,6 +161,7 @@ fn main() {
     let per_thread: u64 = args.get(2).and_then(|s| s.parse().ok()).unwrap_or(20);
     let seed: u64 = args.get(3).and_then(|s| s.parse().ok()).unwrap_or(1);
     let jitter = args.get(4).map(|s| s == "jitter").unwrap_or(false);
+    CHURN.store(args.get(5).map(|s| s == "churn").unwrap_or(false), Ordering::Relaxed);
 
     let mut symbols = BTreeMap::new();
     symbols.insert("limit".to_string(), Value::Int(1));
@@ -161,8 +175,36 @@ fn main() {
     let ruleset_b: Arc<RuleSet> = Arc::new(fb.ruleset);
     let total = threads as u64 * per_thread;
 
-    let make_task = |i: u64| -> Task {
+    // churn mode: the rulesets of the concurrent phase are built beforehand by all threads at the same moment (a barrier, then a
+    // tight loop of builds on every thread), so whatever a build registers globally is registered concurrently; ruleset i is
+    // built by thread i % threads. The baseline builds its own rulesets one after another on this thread.
+    let (prebuilt, partner): (Arc<Vec<rvmon::fixture::Fixture>>, Arc<Vec<u64>>) = if CHURN.load(Ordering::Relaxed) {
+        let barrier = Arc::new(std::sync::Barrier::new(threads));
+        let hs: Vec<_> = (0..threads as u64)
+            .map(|t| {
+                let barrier = barrier.clone();
+                std::thread::spawn(move || {
+                    barrier.wait();
+                    (0..per_thread).map(|k| (std::time::Instant::now(), k * threads as u64 + t, ephemeral(k * threads as u64 + t))).collect::<Vec<_>>()
+                })
+            })
+            .collect();
+        let mut all: Vec<(std::time::Instant, u64, rvmon::fixture::Fixture)> = hs.into_iter().flat_map(|h| h.join().expect("builder thread panicked")).collect();
+        // every ruleset's partner is the one whose construction started next (most likely on another thread at nearly the same moment)
+        all.sort_by_key(|(t, _, _)| *t);
+        let mut partner = vec![0u64; all.len()];
+        for w in 0..all.len() {
+            partner[all[w].1 as usize] = all[(w + 1) % all.len()].1;
+        }
+        all.sort_by_key(|(_, i, _)| *i);
+        (Arc::new(all.into_iter().map(|(_, _, f)| f).collect()), Arc::new(partner))
+    } else {
+        (Arc::new(vec![]), Arc::new(vec![]))
+    };
+    let make_task = |i: u64, concurrent: bool| -> Task {
         let (ra, rb) = (ruleset_a.clone(), ruleset_b.clone());
+        let prebuilt = prebuilt.clone();
+        let partner = partner.clone();
         Box::pin(async move {
             let facts = input(i);
             match what(i) {
@@ -173,10 +215,21 @@ fn main() {
                     let r = e.evaluate(&facts).await;
                     vec![("bare".to_string(), format!("{:?}", match r { Ok(v) => Obs::Val(v), Err(e) => classify(&e) }))]
                 }
+                // churn mode: this task's ruleset and then, back to back, the one whose construction started next
+                What::Ephemeral if concurrent && (i as usize) < prebuilt.len() => {
+                    let mut r = render(prebuilt[i as usize].ruleset.evaluate_value(&facts).await);
+                    let p = partner[i as usize];
+                    r.extend(render(prebuilt[p as usize].ruleset.evaluate_value(&facts).await));
+                    r
+                }
                 What::Ephemeral => {
                     let fx = ephemeral(i);
-                    let r = render(fx.ruleset.evaluate_value(&facts).await);
+                    let mut r = render(fx.ruleset.evaluate_value(&facts).await);
                     drop(fx);
+                    if CHURN.load(Ordering::Relaxed) {
+                        let fx = ephemeral(partner[i as usize]);
+                        r.extend(render(fx.ruleset.evaluate_value(&facts).await));
+                    }
                     r
                 }
             }
@@ -189,7 +242,7 @@ fn main() {
         log_a.take();
         log_b.take();
         CURRENT_EVAL.with(|c| c.set(i + 1));
-        let r = rvmon::exec::block_on(make_task(i));
+        let r = rvmon::exec::block_on(make_task(i, false));
         let mut l = log_of(&log_a.take(), i + 1);
         l.extend(log_of(&log_b.take(), i + 1));
         expected.push((r, l));
@@ -200,7 +253,7 @@ fn main() {
     // concurrent: a shared run queue; every poll of a task may happen on a different thread
     let queue: Arc<Mutex<VecDeque<(u64, Task, Option<std::thread::ThreadId>)>>> = Arc::new(Mutex::new(VecDeque::new()));
     for i in 0..total {
-        queue.lock().unwrap().push_back((i, make_task(i), None));
+        queue.lock().unwrap().push_back((i, make_task(i, true), None));
     }
     let results: Arc<Mutex<BTreeMap<u64, Rendered>>> = Arc::new(Mutex::new(BTreeMap::new()));
     let migrations = Arc::new(AtomicU64::new(0));
